@@ -101,8 +101,11 @@ type participant struct {
 	cancel context.CancelFunc
 	// cancelIssued: the script / stress driver cancelled this participant's context (at any time)
 	cancelIssued atomic.Bool
-	started      bool
-	done         chan struct{}
+	// cancelSite: where the participant was at that moment, from the script (which established it)
+	// or from the upstream instruments; never from anybody's outcome
+	cancelSite atomic.Value
+	started    bool
+	done       chan struct{}
 	// wfault: how this participant's own client writer fails (wfNone: healthy); werr: its error
 	wfault int
 	werr   *writerError
@@ -252,6 +255,7 @@ func (sc *scenario) start(ps ...*participant) {
 
 func (sc *scenario) runParticipant(p *participant, barrier <-chan struct{}) {
 	defer close(p.done)
+	sc.ctl.registerG(p.id)
 	w := &recWriter{fault: p.wfault, err: p.werr}
 	defer func() {
 		p.wWrites, p.wFlushes, p.wFaults = w.writes, w.flushes, w.faults
@@ -343,10 +347,185 @@ func (sc *scenario) settle() { time.Sleep(3 * time.Millisecond) }
 
 func (sc *scenario) cancel(ps ...*participant) {
 	for _, p := range ps {
-		p.cancelIssued.Store(true)
-		p.cancel()
+		sc.doCancel(p, "")
 		sc.ctl.note("cancel:" + p.name)
 	}
+}
+
+// cancel sites that no instrument can see
+const (
+	siteQueue       = "concurrency-queue" // queued for a MaxConcurrency slot (established by the script)
+	siteBeforeStart = "before-start"
+	siteNoFetch     = "no-fetch-in-progress"
+)
+
+// doCancel cancels p's context and records where p was: site if the script knows it, else the
+// instrument one of p's calls is inside right now.
+func (sc *scenario) doCancel(p *participant, site string) {
+	if site == "" {
+		site = sc.w.whereIs(p.id)
+	}
+	if site == "" {
+		site = siteNoFetch
+		if !p.started {
+			site = siteBeforeStart
+		}
+	}
+	if p.cancelSite.Load() == nil {
+		p.cancelSite.Store(site)
+	}
+	p.cancelIssued.Store(true)
+	p.cancel()
+}
+
+func (p *participant) cancelledAt() string {
+	if v, ok := p.cancelSite.Load().(string); ok {
+		return v
+	}
+	return "not-cancelled"
+}
+
+// leaders says, from the hook events, whose flight each participant joined: inbound layer (the
+// first close of the same inbound key after the participant's last arrival at the follower
+// point; the close hooks come after the leader closed the registration) and subgraph layer (the first finish of the same single-flight key after each of its
+// arrivals at the subgraph follower point).
+type leaders struct {
+	inbound  map[int]int
+	subgraph map[int][]int
+}
+
+func computeLeaders(ev []hookEvent) leaders {
+	l := leaders{inbound: map[int]int{}, subgraph: map[int][]int{}}
+	lastIn := map[int]hookEvent{}
+	for _, e := range ev {
+		if e.pid >= 0 && e.point == ptInFollowerBeforeRegister {
+			lastIn[e.pid] = e
+		}
+	}
+	firstAfter := func(from hookEvent, points ...string) int {
+		for _, e := range ev[from.seq+1:] {
+			if e.key != from.key {
+				continue
+			}
+			for _, pt := range points {
+				if e.point == pt {
+					return e.pid
+				}
+			}
+		}
+		return -1
+	}
+	for pid, e := range lastIn {
+		if q := firstAfter(e, ptInLeaderBeforeClose, ptInLeaderErrBeforeClose); q >= 0 && q != pid {
+			l.inbound[pid] = q
+		}
+	}
+	for _, e := range ev {
+		if e.pid >= 0 && e.point == ptSubFollowerBeforeWait {
+			if q := firstAfter(e, ptSubLeaderBeforeClose); q >= 0 && q != e.pid {
+				l.subgraph[e.pid] = append(l.subgraph[e.pid], q)
+			}
+		}
+	}
+	return l
+}
+
+// culprit: the cancelled participant whose flight p (transitively) joined. layer says where p's
+// own sharing happened; a live leader that is itself a victim is followed further.
+func (sc *scenario) culprit(l leaders, p *participant, layer string) *participant {
+	seen := map[int]bool{}
+	var walk func(pid int, layer string, depth int) *participant
+	walk = func(pid int, layer string, depth int) *participant {
+		if depth > 6 || seen[pid] {
+			return nil
+		}
+		seen[pid] = true
+		var next []int
+		if layer != "subgraph" {
+			if q, ok := l.inbound[pid]; ok {
+				next = append(next, q)
+			}
+		}
+		if layer != "inbound" || len(next) == 0 {
+			next = append(next, l.subgraph[pid]...)
+		}
+		for _, q := range next {
+			if q >= 0 && q < len(sc.parts) && sc.parts[q].cancelIssued.Load() {
+				return sc.parts[q]
+			}
+		}
+		for _, q := range next {
+			if q >= 0 && q < len(sc.parts) {
+				if c := walk(q, "", depth+1); c != nil {
+					return c
+				}
+			}
+		}
+		return nil
+	}
+	return walk(p.id, layer, 0)
+}
+
+// cancelFacts adds the match facts that say which cancellation reached p. None of them is
+// derived from p's outcome.
+//
+//   - leader_cancelled_at: where the cancelled request whose flight p (transitively) joined was when
+//     it was cancelled: declared by the script when only the script can know it (concurrency-queue),
+//     else the upstream instrument one of its calls was inside (rate-limit-prefetch, subgraph-fetch),
+//     else before-start / no-fetch-in-progress. The leader is told from the hook events; under stress
+//     this can fail ("leader-not-identified"), and the cancel site does not determine how the
+//     cancellation propagates (a leader cancelled while queued later runs its fetches with the dead
+//     context), so known-finding matchers should use the next facts.
+//   - ctx_error_from_rate_limit / ctx_error_from_fetch: whether the rate limiter / a datasource
+//     answered ANY cancelled request that shares work with p (same inbound key or an identical
+//     fetch) with that request's own context error, i.e. whether the shared work got as far as
+//     failing there. Set-based over the participants, exact attribution through the context value.
+//   - ctx_error_from_follower_wait: a cancelled request sharing work with p was waiting as a
+//     subgraph follower (hook events, best effort).
+func (sc *scenario) cancelFacts(l leaders, ev []hookEvent, p *participant, m map[string]string) (map[string]string, map[string]any) {
+	mine := map[string]bool{}
+	for _, uk := range p.spec.ukeys() {
+		mine[uk] = true
+	}
+	waited := map[int]bool{}
+	for _, e := range ev {
+		if e.point == ptSubFollowerBeforeWait && e.pid >= 0 {
+			waited[e.pid] = true
+		}
+	}
+	var lim, fetch, wait bool
+	var peers []string
+	sc.w.mu.Lock()
+	for _, q := range sc.parts {
+		if q == p || !q.started || !q.cancelIssued.Load() {
+			continue
+		}
+		shares := false
+		for _, uk := range q.spec.ukeys() {
+			if mine[uk] {
+				shares = true
+			}
+		}
+		if !shares {
+			continue
+		}
+		peers = append(peers, q.name+"@"+q.cancelledAt())
+		lim = lim || sc.w.ctxErrAt[q.id][stageLimiter]
+		fetch = fetch || sc.w.ctxErrAt[q.id][stageFetch]
+		wait = wait || waited[q.id]
+	}
+	sc.w.mu.Unlock()
+	m["ctx_error_from_rate_limit"] = fmt.Sprint(lim)
+	m["ctx_error_from_fetch"] = fmt.Sprint(fetch)
+	m["ctx_error_from_follower_wait"] = fmt.Sprint(wait)
+	extra := map[string]any{"cancelled_requests_sharing_work": peers}
+	if c := sc.culprit(l, p, m["layer"]); c != nil {
+		m["leader_cancelled_at"] = c.cancelledAt()
+		extra["cancelled_leader"] = c.name
+	} else {
+		m["leader_cancelled_at"] = "leader-not-identified"
+	}
+	return m, extra
 }
 
 func (sc *scenario) openGate(g *gate) {
@@ -573,6 +752,10 @@ func (sc *scenario) judge() {
 		if p.panicMsg != "" {
 			d["panic"] = p.panicMsg
 		}
+		if p.cancelIssued.Load() {
+			d["cancelled_at"] = p.cancelledAt()
+			d["own_ctx_error_answered_in"] = sc.w.ctxErrorAt(p.id)
+		}
 		if p.wfault != wfNone {
 			d["own_writer_fault"] = wfNames[p.wfault]
 			d["own_writer_faults_injected"] = p.wFaults
@@ -601,6 +784,8 @@ func (sc *scenario) judge() {
 		return d
 	}
 
+	events := sc.ctl.snapshotEvents()
+	lead := computeLeaders(events)
 	requests := map[string]int{}
 	otherCancelled := func(p *participant) bool {
 		for _, q := range sc.parts {
@@ -677,8 +862,9 @@ func (sc *scenario) judge() {
 				res.Count("outcome.own_cancel_error", 1)
 			} else {
 				res.Count("outcome.foreign_cancel", 1)
+				m, extra := sc.cancelFacts(lead, events, p, map[string]string{"layer": "inbound", "form": "error"})
 				sc.violate("foreign-cancel", fmt.Sprintf("participant %s returned %v although its own context is live (another participant was cancelled: %v)", p.name, p.err, otherCancelled(p)),
-					map[string]string{"layer": "inbound", "form": "error"}, witness(p, nil))
+					m, witness(p, extra))
 			}
 		case p.err != nil:
 			if ownCancelled {
@@ -712,8 +898,9 @@ func (sc *scenario) judge() {
 					layer = "subgraph"
 				}
 				res.Count("outcome.foreign_cancel", 1)
+				m, extra := sc.cancelFacts(lead, events, p, map[string]string{"layer": layer, "form": "rendered"})
 				sc.violate("foreign-cancel", fmt.Sprintf("participant %s (own context live) received the rendering of a fetch that failed with another participant's context error", p.name),
-					map[string]string{"layer": layer, "form": "rendered"}, witness(p, nil))
+					m, witness(p, extra))
 			default:
 				kind, m, other := "data-mismatch", map[string]string{"deduplicated": fmt.Sprint(p.dedup)}, ""
 				for _, q := range sc.parts {
